@@ -225,6 +225,9 @@ type c19RetryCase struct {
 	Subs     []c05Sub  `json:"subs,omitempty"`
 	Fails    []c19Fail `json:"fails"`              // one interruption per client; after them a healthy client
 	StaleDup bool      `json:"staleDup,omitempty"` // the application's Message has Dup=true left over (forwarded / re-used message)
+	// PreConnect: the request is first made on a client that was never connected (it fails there without touching the
+	// wire); if that error offers a retry handle the handle is what is used from then on
+	PreConnect bool `json:"preConnect,omitempty"`
 }
 
 var errC19Write = errors.New("verif: injected transport write failure")
@@ -370,6 +373,22 @@ func c19RetryRunProp(tb rapid.TB, c c19RetryCase, prop string) {
 		return cli.Unsubscribe(ctx, filters...)
 	}
 	do := first
+	if c.PreConnect {
+		r0 := newBaseRig()
+		perr := first(context.Background(), r0.cli)
+		if perr == nil {
+			r0.shutdown()
+			vFailf(tb, nil, "%s on a client that was never connected returned nil", c.Kind)
+		}
+		if n := len(r0.peer.received()); n != 0 {
+			r0.shutdown()
+			vFailf(tb, nil, "%s on a client that was never connected wrote %d packets", c.Kind, n)
+		}
+		if re, ok := perr.(ErrorWithRetry); ok {
+			do = func(ctx context.Context, cli *BaseClient) error { return re.Retry(ctx, cli) }
+		}
+		r0.shutdown()
+	}
 	var firstPub *refPacket
 	relSent := false // a PUBREL was written successfully at some point
 	var rigs []*baseRig
@@ -523,6 +542,7 @@ func c19RetryGen(rt *rapid.T) c19RetryCase {
 	for i := 0; i < nf; i++ {
 		c.Fails = append(c.Fails, c19GenFail(rt, c.Kind))
 	}
+	c.PreConnect = rapid.IntRange(0, 3).Draw(rt, "preConnect") == 0
 	return c
 }
 
